@@ -96,6 +96,10 @@ for name, f, k, tier, goals in [
     ("oneof_fallback", C.oneof_basic, 2, "quick", ("mixed_history",)),
     ("recurrent", lambda: C.rec_simple(1, True), 2, "quick", ()),
     ("recurrent_inner", lambda: C.rec_inner_start(1, True), 2, "quick", ()),
+    # a run that ends abnormally in the middle of a re-iteration (a node failing in iteration >= 1, iterations exhausted
+    # without a default, a failure contained by a one-of) must leave as little behind as one that ends normally
+    ("recurrent_failing", lambda: C.rec_simple(2, False, True), 2, "quick", ("mixed_history",)),
+    ("recurrent_in_oneof", C.rec_in_oneof, 2, "quick", ()),
     ("oneof_fallback_3runs", C.oneof_basic, 3, "thorough", ("mixed_history", "success_after_failure")),
     ("recurrent_3runs", lambda: C.rec_simple(1, True), 3, "thorough", ()),
     ("oneof_nested", C.oneof_nested, 2, "thorough", ()),
@@ -126,7 +130,7 @@ register(Job("C07", "rhombus_with_collaborators", make_c07(lambda: C.rhombus(Tru
 
 # ------------------------------------------------------------------------------------ C08
 def make_c08(spec_factory: Any, share: str = "chart", beh_kw: Optional[Dict[str, Any]] = None,
-             cancel: Optional[int] = None, collab: bool = False) -> Any:
+             cancel: Optional[int] = None, collab: bool = False, stagger: bool = False) -> Any:
     def mk() -> Any:
         spec = spec_factory()
         set_pools()
@@ -140,7 +144,8 @@ def make_c08(spec_factory: Any, share: str = "chart", beh_kw: Optional[Dict[str,
             else:
                 charts = [build_chart(spec, cfg), build_chart(spec, cfg)]
             cancel_at = sym.int("cancel_at", 0, cancel) if cancel else None
-            both = run_overlapping(spec, behs, cfg, charts, cancel_first_at=cancel_at)
+            delays = [0, sym.int("r1.start_delay", 0, 86399)] if stagger else None
+            both = run_overlapping(spec, behs, cfg, charts, cancel_first_at=cancel_at, start_delays=delays)
             label = None
             goals = []
             for i, o in enumerate(both):
@@ -158,6 +163,11 @@ def make_c08(spec_factory: Any, share: str = "chart", beh_kw: Optional[Dict[str,
                 lab = same_outcome(o, solo, strict_order=False)
                 if lab:
                     label = "run%d_differs_from_solo:%s" % (i, lab)
+                    break
+                # a payload object the caller hands to several runs is shared state of the caller's, not of the engine's
+                lab = V.input_untouched(o)
+                if lab:
+                    label = "run%d:%s" % (i, lab)
                     break
             kinds = ["err" if (o.kind != "done" or o.error is not None) else "ok" for o in both]
             if "err" in kinds and "ok" in kinds:
@@ -226,3 +236,18 @@ register(Job("C08", "rhombus_with_collaborators", make_c08(_rhombus_b, "chart", 
              budget_s=300, parts=_parts2([("r0.B.kind0", 2), ("r1.B.kind0", 2)]), goals=("one_fails_other_succeeds",),
              doc=doc("rhombus with a recording event manager and artifact store, two overlapping runs", SYM8,
                      {"bounds": "every run must get its own event-manager and store objects"})))
+
+
+# the second run starts while the first is somewhere in the middle (symbolic start delay), and the first may be cancelled
+# there: state that a run keeps outside itself only *while* it is inside a construct is visible to exactly such a neighbour
+register(Job("C08", "oneof_staggered_start", make_c08(C.oneof_basic, "chart", {"dur_nodes": {"C1"}}, stagger=True), tier="quick",
+             budget_s=400, goals=("one_fails_other_succeeds",),
+             parts=_parts2([("r0.C1.kind0", 2), ("r1.C1.kind0", 2), ("r0.C2.kind0", 2), ("r1.C2.kind0", 2)]),
+             doc=doc("oneof_basic, two runs on one chart, the second started after a symbolic delay", SYM8 + ["start delay of run 1"])))
+register(Job("C08", "oneof_cancel_first_then_second", make_c08(C.oneof_basic, "chart", {"dur_nodes": {"C1"}}, cancel=24, stagger=True),
+             tier="quick", budget_s=400, goals=("first_run_cancelled",),
+             parts=[{"cancel_at": i} for i in range(0, 25, 2)],
+             doc=doc("oneof_basic, first run cancelled at a loop iteration, second run started after a symbolic delay", SYM8)))
+register(Job("C08", "recurrent_staggered_start", make_c08(lambda: C.rec_simple(1, True), "chart", {"dur_nodes": {"M"}}, stagger=True),
+             tier="thorough", budget_s=2400, parts=_parts2([("r0.D.want", 3), ("r1.D.want", 3)]),
+             doc=doc("rec_simple, two runs on one chart, the second started after a symbolic delay", SYM8 + ["start delay of run 1"])))
